@@ -123,10 +123,11 @@ def check_model(ck, pm: PM):
     # H7 presence of the condensation heat
     Cs = pm.series("permeate_condensation_heat")
     pt = pm.out.facts.get(pm.cond + ".permeate_temperature")
-    if Cs is None or len(Cs.per_iter) != 1:
+    cv = pm.field("permeate_condensation_heat")
+    if (Cs is None or len(Cs.per_iter) != 1) and not (isinstance(cv, ListV) and cv.kind == "rep"):
         ck.ob("H7", fq, "condensation-heat series appended once per step", where, False)
     else:
-        e = Cs.per_iter[0]
+        e = Cs.per_iter[0] if Cs is not None else cv.elem   # the same value at every step is one value per step too
         if pt == "none":
             ck.ob("H7", fq, "no condensation heat without a permeate temperature", where, isinstance(e, NoneV), found=repr(e)[:200])
         else:
